@@ -213,7 +213,7 @@ def unit_self_reference(eng):
     """definitions that depend on themselves must end in an error (findings D15: hang, D16: DeferredCycle escapes)"""
     import subprocess
     import json
-    cases = [("x = x\n.word x\n", "D15"), ("x = y\ny = x\n.word x\n", "D15"), ("x = x + 1\n.word x\n", "D15"), ("x = x / 2\n.word x\n", "D16"), ("x = <x & 1> + 1\n.word x\n", "D16")]
+    cases = [("x = x\n.word x\n", "D15"), ("x = y\ny = x\n.word x\n", "D15"), ("x = x + 1\n.word x\n", "D16"), ("x = y + 1\ny = x + 1\n.word x\n", "D16"), ("x = x / 2\n.word x\n", "D16"), ("x = <x & 1> + 1\n.word x\n", "D16")]
     code = r'''
 import sys, json, signal
 sys.path.insert(0, %r)
@@ -450,8 +450,8 @@ def witness_D7(tree):
 
 
 def witness_D15(tree):
-    out = _native_outcome(tree, "x = x + 1\n.word x\n", timeout=5)
-    return out not in ("ok", "fail"), "x = x + 1 / .word x -> %s" % out
+    out = _native_outcome(tree, "x = y\ny = x\n.word x\n", timeout=5)
+    return out == "timeout", "x = y / y = x / .word x -> %s" % out
 
 
 def witness_D16(tree):
